@@ -1,5 +1,6 @@
-(* The interpreter proper. Every node's semantics is a function of `ev`, the evaluator for
-   sub-terms with one unit of fuel less; `eval` ties the knot. Proofs quantify over `ev`. *)
+(* Evaluator model, part 2: the semantics of every node as a program (EvalDefs.prog) over the
+   primitive effects; `eval` ties the knot with fuel. A node's program mentions its sub-terms only
+   through `Ev`, so every statement about programs is parametric in the sub-term evaluator. *)
 From Coq Require Import ZArith NArith List Bool String Ascii Floats.SpecFloat.
 From ChaiV Require Import StrUtil NumDefs NumSpecRun Ast EvalDefs.
 Import ListNotations.
@@ -12,17 +13,21 @@ Record numops := mknumops {
   n_un : string -> bool -> nty -> nval -> option (outcome * nval);
   n_fn_bin : string -> bool -> nty -> nval -> nty -> nval -> option (outcome * nval) }.  (* the same operator called as a function *)
 
+(* continue on a failure only; values pass through *)
+Definition on_fail {A} (p : prog A) (h : fail -> prog A) : prog A :=
+  Handle p (fun r => match r with inl a => Ret a | inr f => h f end).
+
 Section EVAL.
   Variable c : cfg.
   Variable ops : numops.
 
-  Definition arith_error {A} : M A := throw (EStd "arithmetic_error" "Arithmetic error: divide by zero").
+  Definition arith_error {A} : prog A := throw (EStd "arithmetic_error" "Arithmetic error: divide by zero").
 
   (* wrap the outcome of Boxed_Number::go into Boxed_Values *)
-  Definition box_outcome (o : outcome) (lhs : nat) (inplace : bool) (on_reject : string) : M nat :=
+  Definition box_outcome (o : outcome) (lhs : dloc) (inplace : bool) (on_reject : string) : prog dloc :=
     match o with
     | Val TBool (VI z) => new_value (OBool (negb (Z.eqb z 0))) true false
-    | Val t v => if inplace then ret lhs else new_value (ONum (tyname_of_nty t) t v) true false
+    | Val t v => if inplace then Ret lhs else new_value (ONum (tyname_of_nty t) t v) true false
     | ArithErr => arith_error
     | UB => unsup "UB: arithmetic undefined in C++ (signed overflow, over-wide shift, ...)"
     | _ => eval_error on_reject
@@ -31,36 +36,36 @@ Section EVAL.
   Definition is_assign_text (t : string) : bool :=
     existsb (String.eqb t) ["="; "+="; "-="; "*="; "/="; "%="; "<<="; ">>="; "&="; "|="; "^="].
 
-  (* Boxed_Number::do_oper on two arithmetic Boxed_Values *)
-  Definition num_binary (via_fn : bool) (text : string) (l r : nat) (on_reject : string) : M (option nat) :=
+  (* Boxed_Number::do_oper on two arithmetic Boxed_Values; None: not an arithmetic operation *)
+  Definition num_binary (via_fn : bool) (text : string) (l r : dloc) (on_reject : string) : prog (option dloc) :=
     lo <- obj_of l ;; ro <- obj_of r ;;
     match lo, ro with
     | Some (ONum tn1 t1 v1), Some (ONum _ t2 v2) =>
-        dl <- get_data l ;;
-        let mutable_lhs := negb (d_const dl) && negb (d_ret dl) in
+        dat <- Prim (PGetData l) ;;
+        let mutable_lhs := negb (d_const dat) && negb (d_ret dat) in
         match (if via_fn then n_fn_bin ops else n_bin ops) text mutable_lhs t1 v1 t2 v2 with
-        | None => ret None
+        | None => Ret None
         | Some (o, v1') =>
             let inplace := is_assign_text text in
             (if inplace then
-               match o, d_obj dl with
-               | Val _ _, Some ol => set_obj_at ol (ONum tn1 t1 v1')
-               | _, _ => ret tt
+               match o, d_obj dat with
+               | Val _ _, Some lo' => Prim (PSetObj lo' (ONum tn1 t1 v1'))
+               | _, _ => Ret tt
                end
-             else ret tt) ;;;
-            d <- box_outcome o l inplace on_reject ;; ret (Some d)
+             else Ret tt) ;;;
+            d <- box_outcome o l inplace on_reject ;; Ret (Some d)
         end
-    | _, _ => ret None
+    | _, _ => Ret None
     end.
 
   (* ------------------------------------------------------------ non-arithmetic operators and builtins *)
-  Definition dispatch_error {A} (what : string) : M A := throw (EStd "dispatch_error" what).
+  Definition dispatch_error {A} (what : string) : prog A := throw (EStd "dispatch_error" what).
 
-  Definition string_of_value (o : option obj) : M string :=
+  Definition string_of_value (o : option obj) : prog string :=
     match o with
-    | Some (ONum _ (TI _ _) (VI z)) => ret (dec_of_z z)
-    | Some (OBool b) => ret (if b then "true" else "false")
-    | Some (OStr s) => ret s
+    | Some (ONum _ (TI _ _) (VI z)) => Ret (dec_of_z z)
+    | Some (OBool b) => Ret (if b then "true" else "false")
+    | Some (OStr s) => Ret s
     | _ => unsup "to_string of this kind of value"
     end.
 
@@ -75,19 +80,26 @@ Section EVAL.
     else if String.eqb op ">=" then Some (negb (string_lt a b))
     else None.
 
+  (* a reference to the object of `d` (Handle_Return<T&>): a new Boxed_Value aliasing the object *)
+  Definition reference_to (d : dloc) : prog dloc :=
+    x <- Prim (PGetData d) ;; Prim (PAllocData (mkdata (d_obj x) (d_const x) true)).
+
+  (* overwrite the object of a non-const Boxed_Value in place *)
+  Definition write_through (d : dloc) (o : obj) (opname : string) : prog unit :=
+    x <- Prim (PGetData d) ;;
+    if d_const x then dispatch_error opname
+    else match d_obj x with
+         | Some l => Prim (PSetObj l o)
+         | None => dispatch_error opname
+         end.
+
   (* operators that are not Boxed_Number operations: dispatch over the (modelled) registered functions *)
-  Definition call_operator (text : string) (l r : nat) : M nat :=
+  Definition call_operator (text : string) (l r : dloc) : prog dloc :=
     lo <- obj_of l ;; ro <- obj_of r ;;
     match lo, ro with
     | Some (OStr a), Some (OStr b) =>
         if String.eqb text "+" then new_value (OStr (a ++ b)) false true
-        else if String.eqb text "+=" then
-          dl <- get_data l ;;
-          if d_const dl then dispatch_error "+=" else
-          match d_obj dl with
-          | Some ol => set_obj_at ol (OStr (a ++ b)) ;;; alloc_data (mkdata (Some ol) false true)
-          | None => dispatch_error "+="
-          end
+        else if String.eqb text "+=" then write_through l (OStr (a ++ b)) "+=" ;;; reference_to l
         else match str_cmp text a b with
              | Some x => new_value (OBool x) false true
              | None => dispatch_error text
@@ -103,51 +115,40 @@ Section EVAL.
     | _, _ => dispatch_error text
     end.
 
-  (* typed `=` through dispatch (operators::assign<T>) and unknown_assign *)
-  Definition call_assign (l r : nat) : M nat :=
-    lo <- obj_of l ;; ro <- obj_of r ;; dl <- get_data l ;;
+  (* typed `=` through dispatch (operators::assign<T>), ptr_assign for functions, unknown_assign *)
+  Definition call_assign (l r : dloc) : prog dloc :=
+    lo <- obj_of l ;; ro <- obj_of r ;;
     match lo, ro with
-    | None, Some _ => assign_data l r ;;; ret l                       (* unknown_assign *)
-    | None, None => assign_data l r ;;; ret l
-    | Some (OStr _), Some (OStr _) | Some (OBool _), Some (OBool _) =>
-        (* equal kinds: the object is overwritten in place, a reference is returned *)
-        if d_const dl then dispatch_error "=" else
-        match d_obj dl, ro with
-        | Some ol, Some rv => set_obj_at ol rv ;;; alloc_data (mkdata (Some ol) false true)
-        | _, _ => dispatch_error "="
-        end
-    | Some (OVec _), Some (OVec b) =>
-        if d_const dl then dispatch_error "=" else
-        match d_obj dl with
-        | Some ol => set_obj_at ol (OVec b) ;;; alloc_data (mkdata (Some ol) false true)
+    | None, _ => assign_data l r ;;; Ret l                              (* unknown_assign *)
+    | Some (OStr _), Some (OStr _) | Some (OBool _), Some (OBool _) | Some (OVec _), Some (OVec _) =>
+        match ro with
+        | Some rv => write_through l rv "=" ;;; reference_to l
         | None => dispatch_error "="
         end
     | Some (OFun _), Some (OFun _) =>
         (* ptr_assign<Proxy_Function_Base>: lhs.assign(Boxed_Value(rhs)) *)
-        dr <- get_data r ;;
-        if d_const dl then dispatch_error "=" else set_data_at l (mkdata (d_obj dr) false false) ;;; ret l
+        dl' <- Prim (PGetData l) ;; dr <- Prim (PGetData r) ;;
+        if d_const dl' then dispatch_error "=" else Prim (PSetData l (mkdata (d_obj dr) false false)) ;;; Ret l
     | Some (OMap _), Some (OMap _) | Some (OFun _), _ | Some (ODyn _ _), _ => unsup "assignment of maps/objects"
     | _, _ => dispatch_error "="
     end.
 
-  Definition builtin_call (name : string) (args : list nat) : M nat :=
+  Definition size_value (n : nat) : prog dloc := new_value (ONum "ulong" (TI 64 false) (VI (Z.of_nat n))) false true.
+
+  Definition builtin_call (name : string) (args : list dloc) : prog dloc :=
     match args with
     | [a] =>
         o <- obj_of a ;;
-        if String.eqb name "print" then
-          s <- string_of_value o ;; modify (fun st => set_out st (s_out st ++ s ++ newline)) ;;; void_var
-        else if String.eqb name "puts" then
-          s <- string_of_value o ;; modify (fun st => set_out st (s_out st ++ s)) ;;; void_var
-        else if String.eqb name "to_string" then
-          s <- string_of_value o ;; new_value (OStr s) false true
+        if String.eqb name "print" then s <- string_of_value o ;; Prim (POut (s ++ newline)) ;;; void_var
+        else if String.eqb name "puts" then s <- string_of_value o ;; Prim (POut s) ;;; void_var
+        else if String.eqb name "to_string" then s <- string_of_value o ;; new_value (OStr s) false true
         else if String.eqb name "throw" then throw (EBoxed a)
-        else if String.eqb name "clone" then
-          match o with Some ob => clone_obj ob | None => dispatch_error "clone" end
+        else if String.eqb name "clone" then match o with Some ob => clone_obj ob | None => dispatch_error "clone" end
         else if String.eqb name "size" then
           match o with
-          | Some (OVec l) => new_value (ONum "ulong" (TI 64 false) (VI (Z.of_nat (List.length l)))) false true
-          | Some (OStr s) => new_value (ONum "ulong" (TI 64 false) (VI (Z.of_nat (String.length s)))) false true
-          | Some (OMap l) => new_value (ONum "ulong" (TI 64 false) (VI (Z.of_nat (List.length l)))) false true
+          | Some (OVec l) => size_value (List.length l)
+          | Some (OStr s) => size_value (String.length s)
+          | Some (OMap l) => size_value (List.length l)
           | _ => dispatch_error "size"
           end
         else if String.eqb name "empty" then
@@ -159,26 +160,26 @@ Section EVAL.
           end
         else if String.eqb name "front" then
           match o with
-          | Some (OVec (x :: _)) => ret x
+          | Some (OVec (x :: _)) => Ret x
           | Some (OVec []) => throw (EStd "range_error" "Container empty")
           | _ => unsup "front"
           end
         else if String.eqb name "back" then
           match o with
           | Some (OVec []) => throw (EStd "range_error" "Container empty")
-          | Some (OVec l) => ret (last l 0%nat)
+          | Some (OVec l) => Ret (last l (DL 0))
           | _ => unsup "back"
           end
         else if String.eqb name "pop_back" then
-          da <- get_data a ;;
-          match o, d_obj da with
-          | Some (OVec l), Some ol =>
+          match o with
+          | Some (OVec l) =>
+              da <- Prim (PGetData a) ;;
               if d_const da then dispatch_error "pop_back"
               else match l with
                    | [] => throw (EStd "range_error" "Container empty")
-                   | _ => set_obj_at ol (OVec (removelast l)) ;;; void_var
+                   | _ => write_through a (OVec (removelast l)) "pop_back" ;;; void_var
                    end
-          | _, _ => unsup "pop_back"
+          | _ => unsup "pop_back"
           end
         else if String.eqb name "what" then
           match o with
@@ -188,35 +189,34 @@ Section EVAL.
         else dispatch_error name
     | [a; b] =>
         if String.eqb name "push_back" then
-          oa <- obj_of a ;; da <- get_data a ;;
-          match oa, d_obj da with
-          | Some (OVec l), Some ol =>
+          oa <- obj_of a ;;
+          match oa with
+          | Some (OVec _) =>
               (* prelude: def push_back(Vector container, x) — reuse a returned value, clone anything else *)
-              db <- get_data b ;;
-              e <- (if d_ret db then reset_ret b ;;; ret b
+              db <- Prim (PGetData b) ;;
+              e <- (if d_ret db then reset_ret b ;;; Ret b
                     else ob <- obj_of b ;;
                          match ob with Some x => clone_obj x | None => dispatch_error "clone" end) ;;
-              if d_const da then dispatch_error "push_back_ref"
-              else oa' <- obj_of a ;;
-                   match oa' with
-                   | Some (OVec l') => set_obj_at ol (OVec (app l' [e])) ;;; void_var
-                   | _ => unsup "push_back"
-                   end
-          | Some (OStr _), _ => unsup "push_back on string"
-          | _, _ => dispatch_error "push_back"
+              oa' <- obj_of a ;;
+              match oa' with
+              | Some (OVec l') => write_through a (OVec (app l' [e])) "push_back_ref" ;;; void_var
+              | _ => unsup "push_back"
+              end
+          | Some (OStr _) => unsup "push_back on string"
+          | _ => dispatch_error "push_back"
           end
         else dispatch_error name
     | _ => dispatch_error name
     end.
 
   (* v[i]: call_function("[]") -> c.at(index) *)
-  Definition array_call (v i : nat) : M nat :=
+  Definition array_call (v i : dloc) : prog dloc :=
     vo <- obj_of v ;; io <- obj_of i ;;
     match vo, z_of_index io with
     | Some (OVec l), Some z =>
         if (z <? 0)%Z then throw (EStd "out_of_range" "vector::_M_range_check")
         else match nth_error l (Z.to_nat z) with
-             | Some d => ret d
+             | Some d => Ret d
              | None => throw (EStd "out_of_range" "vector::_M_range_check")
              end
     | Some (OVec _), None => dispatch_error "[]"
@@ -224,20 +224,18 @@ Section EVAL.
     | _, _ => dispatch_error "[]"
     end.
 
-  (* ------------------------------------------------------------ the evaluator for sub-terms *)
-  Variable ev : ast -> M nat.
-
-  Fixpoint eval_seq (l : list ast) : M nat :=
+  (* ------------------------------------------------------------ sequencing helpers *)
+  Fixpoint eval_seq (l : list ast) : prog dloc :=
     match l with
     | [] => void_var
-    | [x] => ev x
-    | x :: r => ev x ;;; eval_seq r
+    | [x] => Ev x
+    | x :: r => Ev x ;;; eval_seq r
     end.
 
-  Fixpoint eval_list (l : list ast) : M (list nat) :=
+  Fixpoint eval_list (l : list ast) : prog (list dloc) :=
     match l with
-    | [] => ret []
-    | x :: r => d <- ev x ;; ds <- eval_list r ;; ret (d :: ds)
+    | [] => Ret []
+    | x :: r => d <- Ev x ;; ds <- eval_list r ;; Ret (d :: ds)
     end.
 
   (* Arg_List_AST_Node::get_arg_name / get_arg_type *)
@@ -253,41 +251,42 @@ Section EVAL.
     | _ => ""
     end.
 
-  Definition with_trace (n : ast) (m : M nat) : M nat :=
-    fun s => match m s with
-             | (RThrow (EEval r st), s') => (RThrow (EEval r (app st [TE (a_kind n) (a_loc n)])), s')
-             | x => x
-             end.
+  (* AST_Node_Impl::eval: an eval_error passing through records this node in its call stack *)
+  Definition with_trace (n : ast) (p : prog dloc) : prog dloc :=
+    on_fail p (fun f => match f with
+                        | FThrow (EEval r st) => Fail (FThrow (EEval r (app st [TE (a_kind n) (a_loc n)])))
+                        | _ => Fail f
+                        end).
 
-  (* exceptions from Boxed_Number inside operator nodes *)
-  Definition catch_dispatch {A} (m : M A) (reason : string) : M A :=
-    fun s => match m s with
-             | (RThrow (EStd "dispatch_error" _), s') => (RThrow (EEval reason []), s')
-             | x => x
-             end.
+  (* a dispatch_error leaving an operator node becomes an eval_error *)
+  Definition catch_dispatch {A} (p : prog A) (reason : string) : prog A :=
+    on_fail p (fun f => match f with
+                        | FThrow (EStd "dispatch_error" _) => eval_error reason
+                        | _ => Fail f
+                        end).
 
-  Definition do_binary (text : string) (l r : nat) : M nat :=
+  Definition do_binary (text : string) (l r : dloc) : prog dloc :=
     x <- num_binary false text l r ("Error with numeric operator calling: " ++ text) ;;
     match x with
-    | Some d => ret d
-    | None => catch_dispatch (with_call (save_params [l; r] ;;; call_operator text l r)) ("Can not find appropriate '" ++ text ++ "' operator.")
+    | Some d => Ret d
+    | None => catch_dispatch (InCall (Prim (PSaveParams [l; r]) ;;; call_operator text l r)) ("Can not find appropriate '" ++ text ++ "' operator.")
     end.
 
-  Definition eval_binary (n : ast) : M nat :=
-    l <- ev (child 0 n) ;; r <- ev (child 1 n) ;; do_binary (a_text n) l r.
+  Definition eval_binary (n : ast) : prog dloc :=
+    l <- Ev (child 0 n) ;; r <- Ev (child 1 n) ;; do_binary (a_text n) l r.
 
-  Definition eval_logical (is_and : bool) (n : ast) : M nat :=
-    l <- ev (child 0 n) ;; lb <- get_bool l ;;
+  Definition eval_logical (is_and : bool) (n : ast) : prog dloc :=
+    l <- Ev (child 0 n) ;; lb <- get_bool l ;;
     if is_and then
-      (if lb then r <- ev (child 1 n) ;; rb <- get_bool r ;; new_value (OBool rb) true false
+      (if lb then r <- Ev (child 1 n) ;; rb <- get_bool r ;; new_value (OBool rb) true false
        else new_value (OBool false) true false)
     else
       (if lb then new_value (OBool true) true false
-       else r <- ev (child 1 n) ;; rb <- get_bool r ;; new_value (OBool rb) true false).
+       else r <- Ev (child 1 n) ;; rb <- get_bool r ;; new_value (OBool rb) true false).
 
-  Definition eval_prefix (n : ast) : M nat :=
+  Definition eval_prefix (n : ast) : prog dloc :=
     let text := a_text n in
-    d <- ev (child 0 n) ;; o <- obj_of d ;; dd <- get_data d ;;
+    d <- Ev (child 0 n) ;; o <- obj_of d ;; dd <- Prim (PGetData d) ;;
     match o with
     | Some (ONum tn t v) =>
         if String.eqb text "&" then unsup "prefix &" else
@@ -297,9 +296,9 @@ Section EVAL.
           match n_un ops text (negb (d_const dd)) t v with
           | None => unsup ("prefix " ++ text)
           | Some (oc, v') =>
-              (if incdec then match oc, d_obj dd with Val _ _, Some ol => set_obj_at ol (ONum tn t v') | _, _ => ret tt end else ret tt) ;;;
+              (if incdec then match oc, d_obj dd with Val _ _, Some lo => Prim (PSetObj lo (ONum tn t v')) | _, _ => Ret tt end else Ret tt) ;;;
               match oc with
-              | Val t' x => if incdec then ret d else new_value (ONum (tyname_of_nty t') t' x) true false
+              | Val t' x => if incdec then Ret d else new_value (ONum (tyname_of_nty t') t' x) true false
               | ArithErr => arith_error
               | UB => unsup "UB: arithmetic undefined in C++"
               | _ => throw (EStd "bad_any_cast" "bad any cast")
@@ -307,7 +306,7 @@ Section EVAL.
           end
     | Some (OBool b) =>
         if String.eqb text "!" then new_value (OBool (negb b)) false true
-        else catch_dispatch (dispatch_error text) ("Error with prefix operator evaluation: '" ++ text ++ "'")
+        else eval_error ("Error with prefix operator evaluation: '" ++ text ++ "'")
     | _ => unsup ("prefix " ++ text ++ " on non-arithmetic value")
     end.
 
@@ -315,181 +314,160 @@ Section EVAL.
     kind_eqb (a_kind lhs) KReference ||
     match a_children lhs with x :: _ => kind_eqb (a_kind x) KReference | [] => false end.
 
-  Definition eval_equation (n : ast) : M nat :=
+  (* Equation_AST_Node: exceptions of the arithmetic fast path become an eval_error *)
+  Definition arith_assign (text : string) (l r : dloc) : prog dloc :=
+    let reason := "Error with unsupported arithmetic assignment operation." in
+    Handle (num_binary false text l r reason)
+      (fun x => match x with
+                | inl (Some d) => Ret d
+                | inl None =>
+                    (* to_operator does not know this text (e.g. "/="): the node calls the registered function instead *)
+                    Handle (num_binary true text l r "bad_any_cast")
+                      (fun y => match y with
+                                | inl (Some d) => Ret d
+                                | inl None => unsup "assignment operator"
+                                | inr (FThrow (EEval _ _)) => eval_error ("Unable to find appropriate'" ++ text ++ "' operator.")
+                                | inr f => Fail f
+                                end)
+                | inr (FThrow (EStd _ _)) => eval_error reason
+                | inr f => Fail f
+                end).
+
+  Definition eval_equation (n : ast) : prog dloc :=
     let text := a_text n in
-    with_call (
-      r <- ev (child 1 n) ;; l <- ev (child 0 n) ;;
-      dl <- get_data l ;;
-      if d_ret dl then eval_error "Error, cannot assign to temporary value."
-      else if d_const dl then eval_error "Error, cannot assign to constant value."
+    InCall (
+      r <- Ev (child 1 n) ;; l <- Ev (child 0 n) ;;
+      dat <- Prim (PGetData l) ;;
+      if d_ret dat then eval_error "Error, cannot assign to temporary value."
+      else if d_const dat then eval_error "Error, cannot assign to constant value."
       else
         lo <- obj_of l ;; ro <- obj_of r ;;
-        if is_arith lo && is_arith ro && is_assign_text text then
-          fun s => match num_binary false text l r "Error with unsupported arithmetic assignment operation." s with
-                   | (RVal (Some d), s') => (RVal d, s')
-                   | (RVal None, s') =>
-                       (* to_operator does not know this text (e.g. "/="): the node calls the registered function instead *)
-                       (match num_binary true text l r "bad_any_cast" s' with
-                        | (RVal (Some d), s'') => (RVal d, s'')
-                        | (RVal None, s'') => (RUnsup "assignment operator", s'')
-                        | (RThrow (EEval _ _), s'') => (RThrow (EEval ("Unable to find appropriate'" ++ text ++ "' operator.") []), s'')
-                        | x => (match fst x with RVal _ => RUnsup "assignment" | RRet d => RRet d | RBreak => RBreak | RCont => RCont
-                                            | RThrow e => RThrow e | RFuel => RFuel | RUnsup w => RUnsup w end, snd x)
-                        end)
-                   | (RThrow (EStd _ _), s') => (RThrow (EEval "Error with unsupported arithmetic assignment operation." []), s')
-                   | (RThrow e, s') => (RThrow e, s')
-                   | (RRet d, s') => (RRet d, s') | (RBreak, s') => (RBreak, s') | (RCont, s') => (RCont, s')
-                   | (RFuel, s') => (RFuel, s') | (RUnsup w, s') => (RUnsup w, s')
-                   end
+        if is_arith lo && is_arith ro && is_assign_text text then arith_assign text l r
         else if String.eqb text "=" then
           match lo with
           | None =>
-              if is_reference_lhs (child 0 n) then assign_data l r ;;; reset_ret l ;;; ret r
+              if is_reference_lhs (child 0 n) then assign_data l r ;;; reset_ret l ;;; Ret r
               else r' <- catch_dispatch (clone_if_necessary r) "Missing clone or copy constructor for right hand side of equation" ;;
                    catch_dispatch (call_assign l r') "Unable to find appropriate'=' operator."
           | Some _ => catch_dispatch (call_assign l r) "Unable to find appropriate'=' operator."
           end
         else if String.eqb text ":=" then
           match lo with
-          | None => assign_data l r ;;; reset_ret l ;;; ret r
-          | Some _ => if String.eqb (type_name_of lo) (type_name_of ro) then assign_data l r ;;; reset_ret l ;;; ret r
+          | None => assign_data l r ;;; reset_ret l ;;; Ret r
+          | Some _ => if String.eqb (type_name_of lo) (type_name_of ro) then assign_data l r ;;; reset_ret l ;;; Ret r
                       else eval_error "Mismatched types in equation"
           end
         else catch_dispatch (call_operator text l r) ("Unable to find appropriate'" ++ text ++ "' operator.")).
 
-  Definition eval_var_decl (n : ast) : M nat :=
-    d <- new_undef ;;
-    fun s => match add_object (a_text (child 0 n)) d s with
-             | (RThrow (EStd "name_conflict_error" nm), s') => (RThrow (EEval ("Variable redefined '" ++ nm ++ "'") []), s')
-             | (RVal _, s') => (RVal d, s')
-             | (RUnsup w, s') => (RUnsup w, s')
-             | (_, s') => (RUnsup "add_object", s')
-             end.
+  (* declare `name` in the innermost scope; a clash is "Variable redefined" *)
+  Definition declare (name : string) (d : dloc) : prog dloc :=
+    ok <- Prim (PAddObject name d) ;;
+    if ok : bool then Ret d else eval_error ("Variable redefined '" ++ name ++ "'").
 
-  Definition eval_assign_decl (n : ast) : M nat :=
-    v <- ev (child 1 n) ;;
+  Definition eval_var_decl (n : ast) : prog dloc :=
+    d <- new_undef ;; declare (a_text (child 0 n)) d.
+
+  Definition eval_assign_decl (n : ast) : prog dloc :=
+    v <- Ev (child 1 n) ;;
     d <- clone_if_necessary v ;;
     reset_ret d ;;;
-    fun s => match add_object (a_text (child 0 n)) d s with
-             | (RThrow (EStd "name_conflict_error" nm), s') => (RThrow (EEval ("Variable redefined '" ++ nm ++ "'") []), s')
-             | (RVal _, s') => (RVal d, s')
-             | (RUnsup w, s') => (RUnsup w, s')
-             | (_, s') => (RUnsup "add_object", s')
-             end.
+    declare (a_text (child 0 n)) d.
 
-  Definition eval_reference (n : ast) : M nat :=
-    d <- new_undef ;; add_object (a_text (child 0 n)) d ;;; ret d.
+  Definition eval_reference (n : ast) : prog dloc :=
+    d <- new_undef ;; add_object (a_text (child 0 n)) d ;;; Ret d.
 
-  Definition eval_block (scoped : bool) (n : ast) : M nat :=
-    if scoped then with_scope (eval_seq (a_children n)) else eval_seq (a_children n).
+  Definition eval_block (scoped : bool) (n : ast) : prog dloc :=
+    if scoped then Scoped (eval_seq (a_children n)) else eval_seq (a_children n).
 
-  Definition eval_if (n : ast) : M nat :=
-    cnd <- ev (child 0 n) ;; b <- get_bool cnd ;;
-    if b then ev (child 1 n) else ev (child 2 n).
+  Definition eval_if (n : ast) : prog dloc :=
+    cnd <- Ev (child 0 n) ;; b <- get_bool cnd ;;
+    if b then Ev (child 1 n) else Ev (child 2 n).
 
-  (* loops: `k` bounds the number of iterations (it is the evaluator's fuel) *)
-  Definition scoped_cond (cnd : ast) : M bool := with_scope (d <- ev cnd ;; get_bool d).
+  (* ------------------------------------------------------------ loops *)
+  Definition scoped_cond (cnd : ast) : prog bool := Scoped (d <- Ev cnd ;; get_bool d).
 
   (* body with `continue` absorbed; `break` reported as false *)
-  Definition loop_body (body : M nat) : M bool :=
-    fun s => match body s with
-             | (RVal _, s') => (RVal true, s')
-             | (RCont, s') => (RVal true, s')
-             | (RBreak, s') => (RVal false, s')
-             | (RRet d, s') => (RRet d, s')
-             | (RThrow e, s') => (RThrow e, s')
-             | (RFuel, s') => (RFuel, s')
-             | (RUnsup w, s') => (RUnsup w, s')
-             end.
+  Definition loop_body (body : prog dloc) : prog bool :=
+    Handle body (fun r => match r with
+                          | inl _ => Ret true
+                          | inr FCont => Ret true
+                          | inr FBreak => Ret false
+                          | inr f => Fail f
+                          end).
 
-  Fixpoint while_loop (k : nat) (cnd body : ast) : M unit :=
-    match k with
-    | O => fun s => (RFuel, s)
-    | S k' =>
-        b <- scoped_cond cnd ;;
-        if b then go <- loop_body (ev body) ;; (if go then while_loop k' cnd body else ret tt)
-        else ret tt
-    end.
+  Definition eval_while (n : ast) : prog dloc :=
+    Scoped (Loop (b <- scoped_cond (child 0 n) ;; if b then loop_body (Ev (child 1 n)) else Ret false)) ;;; void_var.
 
-  Fixpoint for_loop (k : nat) (cnd step body : ast) : M unit :=
-    match k with
-    | O => fun s => (RFuel, s)
-    | S k' =>
-        b <- scoped_cond cnd ;;
-        if b then go <- loop_body (ev body) ;; (if go then ev step ;;; for_loop k' cnd step body else ret tt)
-        else ret tt
-    end.
-
-  Variable fuel : nat.
-
-  Definition eval_while (n : ast) : M nat :=
-    with_scope (while_loop fuel (child 0 n) (child 1 n)) ;;; void_var.
-
-  Definition eval_for (n : ast) : M nat :=
-    with_scope (ev (child 0 n) ;;; for_loop fuel (child 1 n) (child 2 n) (child 3 n)) ;;; void_var.
+  (* for (init; cond; step) body — the step runs before the next test, and not after a break *)
+  Definition eval_for (n : ast) : prog dloc :=
+    Scoped (Ev (child 0 n) ;;;
+            b0 <- scoped_cond (child 1 n) ;;
+            if b0 then
+              Loop (go <- loop_body (Ev (child 3 n)) ;;
+                    if go then Ev (child 2 n) ;;; scoped_cond (child 1 n) else Ret false)
+            else Ret tt) ;;; void_var.
 
   (* the For_Loop optimizer's native closure: for (var i = C1; i < C2; ++i) with int constants *)
-  Fixpoint compiled_loop (k : nat) (counter_obj : nat) (hi : Z) (body : ast) : M unit :=
-    match k with
-    | O => fun s => (RFuel, s)
-    | S k' =>
-        o <- get_obj_at counter_obj ;;
-        match o with
-        | ONum tn t (VI i) =>
-            if (i <? hi)%Z then
-              go <- loop_body (ev body) ;;
-              if go then
-                o' <- get_obj_at counter_obj ;;
-                match o' with
-                | ONum tn' t' (VI j) => set_obj_at counter_obj (ONum tn' t' (VI (wrap 32 true (j + 1)))) ;;; compiled_loop k' counter_obj hi body
-                | _ => unsup "compiled loop counter"
-                end
-              else ret tt
-            else ret tt
-        | _ => unsup "compiled loop counter"
-        end
+  Definition counter_below (counter : oloc) (hi : Z) : prog bool :=
+    o <- Prim (PGetObj counter) ;;
+    match o with
+    | ONum _ _ (VI i) => Ret (i <? hi)%Z
+    | _ => unsup "compiled loop counter"
+    end.
+  Definition counter_incr (counter : oloc) : prog unit :=
+    o <- Prim (PGetObj counter) ;;
+    match o with
+    | ONum tn t (VI j) => Prim (PSetObj counter (ONum tn t (VI (wrap 32 true (j + 1)))))
+    | _ => unsup "compiled loop counter"
     end.
 
   Definition const_int (a : ast) : option Z :=
     match a_const a with Some (_, CNum _ (TI 32 true) (VI z)) => Some z | _ => None end.
 
-  Definition eval_compiled (n : ast) : M nat :=
+  Definition eval_compiled (n : ast) : prog dloc :=
     (* ( Compiled <original For without its body> <body> ) *)
     let orig := child 0 n in
     let body := child 1 n in
     let init := child 0 orig in
     match const_int (child 1 init), const_int (child 1 (child 1 orig)) with
     | Some lo, Some hi =>
-        with_scope (
-          ol <- alloc_obj (ONum "int" (TI 32 true) (VI lo)) ;;
-          d <- alloc_data (mkdata (Some ol) false false) ;;
+        Scoped (
+          counter <- Prim (PAllocObj (ONum "int" (TI 32 true) (VI lo))) ;;
+          d <- Prim (PAllocData (mkdata (Some counter) false false)) ;;
           add_object (a_text (child 0 init)) d ;;;
-          compiled_loop fuel ol hi body) ;;; void_var
+          b0 <- counter_below counter hi ;;
+          if b0 then
+            Loop (go <- loop_body (Ev body) ;;
+                  if go then counter_incr counter ;;; counter_below counter hi else Ret false)
+          else Ret tt) ;;; void_var
     | _, _ => unsup "compiled node shape"
     end.
 
-  Fixpoint ranged_loop (name : string) (elems : list nat) (body : ast) : M unit :=
+  Fixpoint ranged_loop (name : string) (elems : list dloc) (body : ast) : prog unit :=
     match elems with
-    | [] => ret tt
+    | [] => Ret tt
     | e :: r =>
-        go <- with_scope (add_object name e ;;; loop_body (ev body)) ;;
-        if go then ranged_loop name r body else ret tt
+        go <- Scoped (add_object name e ;;; loop_body (Ev body)) ;;
+        if go then ranged_loop name r body else Ret tt
     end.
 
-  Definition eval_ranged_for (n : ast) : M nat :=
-    rng <- ev (child 1 n) ;; o <- obj_of rng ;;
+  Definition eval_ranged_for (n : ast) : prog dloc :=
+    rng <- Ev (child 1 n) ;; o <- obj_of rng ;;
     match o with
     | Some (OVec l) => ranged_loop (a_text (child 0 n)) l (child 2 n) ;;; void_var
     | _ => unsup "ranged for over a non-vector"
     end.
 
-  Definition eval_inline_array (n : ast) : M nat :=
-    let items := match a_children n with x :: _ => a_children x | [] => [] end in
-    (fix go (l : list ast) (acc : list nat) : M nat :=
-       match l with
-       | [] => new_value (OVec (rev acc)) true false
-       | x :: r => v <- ev x ;; e <- catch_dispatch (clone_if_necessary v) "Can not find appropriate 'clone' or copy constructor for vector elements" ;; go r (e :: acc)
-       end) items [].
+  Fixpoint inline_items (l : list ast) (acc : list dloc) : prog dloc :=
+    match l with
+    | [] => new_value (OVec (rev acc)) true false
+    | x :: r =>
+        v <- Ev x ;;
+        e <- catch_dispatch (clone_if_necessary v) "Can not find appropriate 'clone' or copy constructor for vector elements" ;;
+        inline_items r (e :: acc)
+    end.
+  Definition eval_inline_array (n : ast) : prog dloc :=
+    inline_items (match a_children n with x :: _ => a_children x | [] => [] end) [].
 
   (* ------------------------------------------------------------ functions *)
   Definition has_guard (children : list ast) (offset : nat) : bool :=
@@ -511,211 +489,188 @@ Section EVAL.
     && (match cl_guard a, cl_guard b with None, None => true | _, _ => false end)
     && forallb (fun p => String.eqb (fst p) (snd p)) (combine (cl_ptypes a) (cl_ptypes b)).
 
-  (* add_function: reject an equal signature, then stable-sort guarded overloads first *)
-  Definition add_function (cl : closure) : M unit :=
-    s <- get_state ;;
-    let name := cl_name cl in
-    match assoc (s_funcs s) name with
-    | None => put_state (set_funcs s (app (s_funcs s) [(name, [cl])]))
-    | Some l =>
-        if existsb (closure_sig_eq cl) l then throw (EStd "name_conflict_error" name)
-        else
-          let l' := app l [cl] in
-          let sorted := app (filter (fun x => match cl_guard x with Some _ => true | None => false end) l')
-                            (filter (fun x => match cl_guard x with Some _ => false | None => true end) l') in
-          put_state (set_funcs s (map (fun e => if String.eqb (fst e) name then (name, sorted) else e) (s_funcs s)))
-    end.
+  Definition is_guarded (x : closure) : bool := match cl_guard x with Some _ => true | None => false end.
 
-  Definition eval_def (n : ast) : M nat :=
+  (* add_function: reject an equal signature, then stable-sort guarded overloads first *)
+  Definition eval_def (n : ast) : prog dloc :=
     let cl := make_def_closure n in
     if existsb (fun t => negb (String.eqb t "")) (cl_ptypes cl) then unsup "typed parameters"
     else
-    fun s => match add_function cl s with
-             | (RThrow (EStd "name_conflict_error" nm), s') => (RThrow (EEval ("Function redefined '" ++ nm ++ "'") []), s')
-             | (RVal _, s') => void_var s'
-             | (RUnsup w, s') => (RUnsup w, s')
-             | (_, s') => (RUnsup "add_function", s')
-             end.
+      let name := cl_name cl in
+      fs <- Prim (PGetFuncs name) ;;
+      match fs with
+      | None => Prim (PSetFuncs name [cl]) ;;; void_var
+      | Some l =>
+          if existsb (closure_sig_eq cl) l then eval_error ("Function redefined '" ++ name ++ "'")
+          else let l' := app l [cl] in
+               Prim (PSetFuncs name (app (filter is_guarded l') (filter (fun x => negb (is_guarded x)) l'))) ;;; void_var
+      end.
 
-  Fixpoint insert_sorted (k : string) (v : nat) (l : list (string * nat)) : list (string * nat) :=
+  Fixpoint insert_sorted (k : string) (v : dloc) (l : list (string * dloc)) : list (string * dloc) :=
     match l with
     | [] => [(k, v)]
     | (k', v') :: r => if String.eqb k k' then l else if string_lt k k' then (k, v) :: l else (k', v') :: insert_sorted k v r
     end.
 
-  Definition eval_lambda (n : ast) : M nat :=
+  Fixpoint eval_captures (l : list ast) (acc : list (string * dloc)) : prog (list (string * dloc)) :=
+    match l with
+    | [] => Ret acc
+    | x :: r => d <- Ev (child 0 x) ;; eval_captures r (insert_sorted (a_text (child 0 x)) d acc)
+    end.
+
+  Definition eval_lambda (n : ast) : prog dloc :=
     (* ( Lambda captures params body ) *)
     let caps := a_children (child 0 n) in
     let params := a_children (child 1 n) in
-    cs <- (fix go (l : list ast) (acc : list (string * nat)) : M (list (string * nat)) :=
-             match l with
-             | [] => ret acc
-             | x :: r => d <- ev (child 0 x) ;; go r (insert_sorted (a_text (child 0 x)) d acc)
-             end) caps [] ;;
+    cs <- eval_captures caps [] ;;
     if existsb (fun p => negb (String.eqb (arg_type p) "")) params then unsup "typed parameters"
     else
     let this_cap := existsb (fun x => String.eqb (a_text (child 0 x)) "this") caps in
     new_value (OFun (FClosure (mkclosure "" (map arg_name params) (map arg_type params) (child 2 n) None cs this_cap))) false false.
 
-  (* detail::eval_function *)
-  Definition call_closure (cl : closure) (args : list nat) (body : ast) : M nat :=
-    s0 <- get_state ;;
-    let this_obj :=
-      match s_stacks s0 with
-      | (sc :: _) :: _ => match last sc ("", 0%nat) with
-                          | (nm, d) => if String.eqb nm "__this" then Some d else match args with a :: _ => Some a | [] => None end
-                          end
-      | _ => match args with a :: _ => Some a | [] => None end
-      end in
-    with_frame (
+  Fixpoint add_captures (l : list (string * dloc)) : prog unit :=
+    match l with [] => Ret tt | (k, v) :: r => add_object k v ;;; add_captures r end.
+  Fixpoint add_params (ps : list string) (vs : list dloc) : prog unit :=
+    match ps, vs with
+    | p :: pr, v :: vr => (if String.eqb p "this" then Ret tt else add_object p v) ;;; add_params pr vr
+    | _, _ => Ret tt
+    end.
+
+  (* detail::eval_function: new frame; this, captures, parameters in that order; `return` ends here *)
+  Definition call_closure (cl : closure) (args : list dloc) (body : ast) : prog dloc :=
+    cand <- Prim PThisCandidate ;;
+    let this_obj := match cand with Some d => Some d | None => match args with a :: _ => Some a | [] => None end end in
+    Framed (
       (match this_obj with
-       | Some t => if cl_this_capture cl then ret tt else add_object "this" t
-       | None => ret tt
+       | Some t => if cl_this_capture cl then Ret tt else add_object "this" t
+       | None => Ret tt
        end) ;;;
-      (fix addcaps (l : list (string * nat)) : M unit :=
-         match l with [] => ret tt | (k, v) :: r => add_object k v ;;; addcaps r end) (cl_caps cl) ;;;
-      (fix addparams (ps : list string) (vs : list nat) : M unit :=
-         match ps, vs with
-         | p :: pr, v :: vr => (if String.eqb p "this" then ret tt else add_object p v) ;;; addparams pr vr
-         | _, _ => ret tt
-         end) (cl_params cl) args ;;;
-      fun s => match ev body s with
-               | (RRet d, s') => (RVal d, s')
-               | x => x
-               end).
+      add_captures (cl_caps cl) ;;;
+      add_params (cl_params cl) args ;;;
+      on_fail (Ev body) (fun f => match f with FRet d => Ret d | _ => Fail f end)).
 
   (* Dynamic_Proxy_Function::do_call for one overload: None = does not apply (arity / guard) *)
-  Definition try_closure (cl : closure) (args : list nat) : M (option nat) :=
-    if negb (Nat.eqb (List.length args) (List.length (cl_params cl))) then ret None
+  Definition try_closure (cl : closure) (args : list dloc) : prog (option dloc) :=
+    if negb (Nat.eqb (List.length args) (List.length (cl_params cl))) then Ret None
     else
       ok <- match cl_guard cl with
-            | None => ret true
+            | None => Ret true
             | Some g =>
-                fun s => match call_closure cl args g s with
-                         | (RVal d, s') => (match obj_of d s' with (RVal (Some (OBool b)), s'') => (RVal b, s'') | (_, s'') => (RVal false, s'') end)
-                         | (RThrow _, s') => (RVal false, s')       (* test_guard swallows every exception *)
-                         | (RRet d, s') => (RVal false, s')
-                         | (RBreak, s') => (RVal false, s') | (RCont, s') => (RVal false, s')
-                         | (RFuel, s') => (RFuel, s') | (RUnsup w, s') => (RUnsup w, s')
-                         end
+                (* test_guard swallows every exception; a non-boolean guard value counts as false *)
+                Handle (call_closure cl args g)
+                  (fun r => match r with
+                            | inl d => Handle (obj_of d) (fun o => match o with inl (Some (OBool b)) => Ret b | inr (FUnsup w) => Fail (FUnsup w) | _ => Ret false end)
+                            | inr (FUnsup w) => Fail (FUnsup w)
+                            | inr _ => Ret false
+                            end)
             end ;;
-      if ok then d <- call_closure cl args (cl_body cl) ;; ret (Some d) else ret None.
+      if ok : bool then d <- call_closure cl args (cl_body cl) ;; Ret (Some d) else Ret None.
 
-  Fixpoint dispatch_closures (l : list closure) (args : list nat) : M (option nat) :=
+  Fixpoint dispatch_closures (l : list closure) (args : list dloc) : prog (option dloc) :=
     match l with
-    | [] => ret None
-    | cl :: r => x <- try_closure cl args ;; match x with Some d => ret (Some d) | None => dispatch_closures r args end
+    | [] => Ret None
+    | cl :: r => x <- try_closure cl args ;; match x with Some d => Ret (Some d) | None => dispatch_closures r args end
     end.
 
-  Definition call_function_object (f : fnobj) (args : list nat) (fname : string) : M nat :=
+  Definition call_single (cl : closure) (args : list dloc) (fname : string) : prog dloc :=
+    if negb (Nat.eqb (List.length args) (List.length (cl_params cl))) then
+      eval_error ("Function dispatch arity mismatch with function '" ++ fname ++ "'")
+    else x <- try_closure cl args ;;
+         match x with
+         | Some d => Ret d
+         | None => eval_error ("Guard evaluation failed with function '" ++ fname ++ "'")
+         end.
+
+  Definition call_function_object (f : fnobj) (args : list dloc) (fname : string) : prog dloc :=
     match f with
-    | FClosure cl =>
-        if negb (Nat.eqb (List.length args) (List.length (cl_params cl))) then
-          eval_error ("Function dispatch arity mismatch with function '" ++ fname ++ "'")
-        else x <- try_closure cl args ;;
-             match x with
-             | Some d => ret d
-             | None => eval_error ("Guard evaluation failed with function '" ++ fname ++ "'")
-             end
+    | FClosure cl => call_single cl args fname
     | FNamed name =>
-        s <- get_state ;;
-        match assoc (s_funcs s) name, existsb (String.eqb name) builtin_names with
-        | Some [cl], false =>
-            (* a single overload is called directly, not through a Dispatch_Function wrapper *)
-            if negb (Nat.eqb (List.length args) (List.length (cl_params cl))) then
-              eval_error ("Function dispatch arity mismatch with function '" ++ fname ++ "'")
-            else x <- try_closure cl args ;;
-                 match x with
-                 | Some d => ret d
-                 | None => eval_error ("Guard evaluation failed with function '" ++ fname ++ "'")
-                 end
+        fs <- Prim (PGetFuncs name) ;;
+        let builtin := existsb (String.eqb name) builtin_names in
+        match fs, builtin with
+        | Some [cl], false => call_single cl args fname     (* a single overload is called directly, not through a Dispatch_Function wrapper *)
         | _, _ =>
-        x <- dispatch_closures (match assoc (s_funcs s) name with Some l => l | None => [] end) args ;;
-        match x with
-        | Some d => ret d
-        | None =>
-            if existsb (String.eqb name) builtin_names then
-              catch_dispatch (builtin_call name args) ("Error with function dispatch for function '" ++ name ++ "' with function '" ++ fname ++ "'")
-            else eval_error ("Error with function dispatch for function '" ++ name ++ "' with function '" ++ fname ++ "'")
-        end
+            x <- dispatch_closures (match fs with Some l => l | None => [] end) args ;;
+            match x with
+            | Some d => Ret d
+            | None =>
+                let reason := "Error with function dispatch for function '" ++ name ++ "' with function '" ++ fname ++ "'" in
+                if builtin then catch_dispatch (builtin_call name args) reason else eval_error reason
+            end
         end
     end.
 
-  Definition eval_fun_call (save : bool) (n : ast) : M nat :=
-    with_call (
+  Definition absorb_return (p : prog dloc) : prog dloc :=
+    on_fail p (fun f => match f with FRet d => Ret d | _ => Fail f end).
+
+  Definition eval_fun_call (save : bool) (n : ast) : prog dloc :=
+    InCall (
       args <- eval_list (a_children (child 1 n)) ;;
-      (if save then save_params args else ret tt) ;;;
-      f <- ev (child 0 n) ;;
+      (if save then Prim (PSaveParams args) else Ret tt) ;;;
+      f <- Ev (child 0 n) ;;
       fo <- obj_of f ;;
       match fo with
-      | Some (OFun fn) =>
-          fun s => match call_function_object fn args (a_text (child 0 n)) s with
-                   | (RRet d, s') => (RVal d, s')
-                   | x => x
-                   end
+      | Some (OFun fn) => absorb_return (call_function_object fn args (a_text (child 0 n)))
       | _ => eval_error ("'" ++ a_text (child 0 n) ++ "' does not evaluate to a function.")
       end).
 
   (* obj.f(args): the object is the first argument *)
-  Definition eval_dot_access (n : ast) : M nat :=
+  Definition eval_dot_access (n : ast) : prog dloc :=
     let rhs := child 1 n in
     match a_kind rhs with
     | KFun_Call =>
-        with_call (
-          o <- ev (child 0 n) ;;
+        InCall (
+          o <- Ev (child 0 n) ;;
           args <- eval_list (a_children (child 1 rhs)) ;;
-          save_params (o :: args) ;;;
+          Prim (PSaveParams (o :: args)) ;;;
           let name := a_text (child 0 rhs) in
           oo <- obj_of o ;;
           match oo with
           | Some (ODyn _ _) => unsup "method call on a script object"
-          | _ =>
-              fun s => match call_function_object (FNamed name) (o :: args) name s with
-                       | (RRet d, s') => (RVal d, s')
-                       | (RThrow (EEval r st), s') => (RThrow (EEval r st), s')
-                       | x => x
-                       end
+          | _ => absorb_return (call_function_object (FNamed name) (o :: args) name)
           end)
     | _ => unsup "attribute access"
     end.
 
-  Definition eval_array_call (n : ast) : M nat :=
-    with_call (
-      v <- ev (child 0 n) ;; i <- ev (child 1 n) ;;
-      save_params [v; i] ;;;
+  Definition eval_array_call (n : ast) : prog dloc :=
+    InCall (
+      v <- Ev (child 0 n) ;; i <- Ev (child 1 n) ;;
+      Prim (PSaveParams [v; i]) ;;;
       catch_dispatch (array_call v i) "Can not find appropriate array lookup operator '[]'.").
 
   (* ------------------------------------------------------------ switch *)
-  Fixpoint switch_cases (cases : list ast) (value : nat) (matched : bool) : M unit :=
+  (* one case: Some matched' to go on, None when a `break` left the switch *)
+  Definition switch_case (cs : ast) (value : dloc) (matched : bool) : prog (option bool) :=
+    let run :=
+      match a_kind cs with
+      | KCase =>
+          cv <- Ev (child 0 cs) ;;
+          hit <- (if matched then Ret true
+                  else eq <- do_binary "==" value cv ;; eo <- obj_of eq ;;
+                       match eo with Some (OBool b) => Ret b | _ => eval_error "Internal error: case guard evaluation not boolean" end) ;;
+          (if hit : bool then Ev cs ;;; Ret true else Ret false)
+      | KDefault => Ev cs ;;; Ret true
+      | _ => Ret matched
+      end in
+    Handle run (fun r => match r with
+                         | inl m => Ret (Some m)
+                         | inr FBreak => Ret None
+                         | inr f => Fail f
+                         end).
+
+  Fixpoint switch_cases (cases : list ast) (value : dloc) (matched : bool) : prog unit :=
     match cases with
-    | [] => ret tt
+    | [] => Ret tt
     | cs :: r =>
-        go <- (fun s =>
-                 let run :=
-                   match a_kind cs with
-                   | KCase =>
-                       cv <- ev (child 0 cs) ;;
-                       hit <- (if matched then ret true
-                               else eq <- do_binary "==" value cv ;; eo <- obj_of eq ;;
-                                    match eo with Some (OBool b) => ret b | _ => eval_error "Internal error: case guard evaluation not boolean" end) ;;
-                       (if hit then ev cs ;;; ret true else ret false)
-                   | KDefault => ev cs ;;; ret true
-                   | _ => ret matched
-                   end in
-                 match run s with
-                 | (RVal m, s') => (RVal (Some m), s')
-                 | (RBreak, s') => (RVal None, s')
-                 | (RCont, s') => (RCont, s') | (RRet d, s') => (RRet d, s') | (RThrow e, s') => (RThrow e, s')
-                 | (RFuel, s') => (RFuel, s') | (RUnsup w, s') => (RUnsup w, s')
-                 end) ;;
+        go <- switch_case cs value matched ;;
         match go with
-        | None => ret tt
+        | None => Ret tt
         | Some m => switch_cases r value (matched || m)
         end
     end.
 
-  Definition eval_switch (n : ast) : M nat :=
-    with_scope (v <- ev (child 0 n) ;; switch_cases (tl (a_children n)) v false) ;;; void_var.
+  Definition eval_switch (n : ast) : prog dloc :=
+    Scoped (v <- Ev (child 0 n) ;; switch_cases (tl (a_children n)) v false) ;;; void_var.
 
   (* ------------------------------------------------------------ try / catch / finally (as repaired) *)
   Definition exc_bases (ty : string) : list string :=
@@ -726,7 +681,7 @@ Section EVAL.
     else if String.eqb ty "logic_error" then ["exception"]
     else [].
 
-  (* does a clause typed `ty` accept the boxed exception? (Param_Types::match + conversion attempt) *)
+  (* does a clause typed `ty` accept the boxed exception? (Param_Types::match + the conversion attempt) *)
   Definition clause_accepts (ty : string) (o : option obj) : bool :=
     if String.eqb ty "" then true
     else match o with
@@ -738,9 +693,9 @@ Section EVAL.
          | _ => String.eqb ty (type_name_of o)
          end.
 
-  Definition box_exception (e : exn) : M nat :=
+  Definition box_exception (e : exn) : prog dloc :=
     match e with
-    | EBoxed d => ret d
+    | EBoxed d => Ret d
     | EEval r _ => new_value (OExc "eval_error" "eval_error" r) true false
     | EStd ty w =>
         let st := if String.eqb ty "arithmetic_error" || String.eqb ty "range_error" then "runtime_error"
@@ -753,57 +708,57 @@ Section EVAL.
     existsb (String.eqb ty) [""; "int"; "bool"; "string"; "Vector"; "Map"; "double"; "exception"; "runtime_error"; "eval_error";
                              "arithmetic_error"; "out_of_range"; "logic_error"].
 
-  Fixpoint handle_exception (clauses : list ast) (ex : nat) : M (option nat) :=
+  (* one clause, in its own scope: Some value if it accepted the exception *)
+  Definition try_clause (cl : ast) (ex : dloc) : prog (option dloc) :=
+    Scoped (
+      match a_children cl with
+      | [body] => d <- Ev body ;; Ret (Some d)
+      | [arg; body] =>
+          let ty := arg_type arg in
+          if negb (known_type ty) then unsup "catch clause type" else
+          o <- obj_of ex ;;
+          if clause_accepts ty o then add_object (arg_name arg) ex ;;; d <- Ev body ;; Ret (Some d)
+          else Ret None
+      | _ => eval_error "Internal error: catch block size unrecognized"
+      end).
+
+  Fixpoint handle_exception (clauses : list ast) (ex : dloc) : prog (option dloc) :=
     match clauses with
-    | [] => ret None
-    | cl :: r =>
-        x <- with_scope (
-               match a_children cl with
-               | [body] => d <- ev body ;; ret (Some d)
-               | [arg; body] =>
-                   let ty := arg_type arg in
-                   if negb (known_type ty) then unsup "catch clause type" else
-                   o <- obj_of ex ;;
-                   if clause_accepts ty o then add_object (arg_name arg) ex ;;; d <- ev body ;; ret (Some d)
-                   else ret None
-               | _ => eval_error "Internal error: catch block size unrecognized"
-               end) ;;
-        match x with Some d => ret (Some d) | None => handle_exception r ex end
+    | [] => Ret None
+    | cl :: r => x <- try_clause cl ex ;; match x with Some d => Ret (Some d) | None => handle_exception r ex end
     end.
 
-  Definition eval_try (n : ast) : M nat :=
+  (* the finally block, then the pending outcome; the block's own value replaces a normal result *)
+  Definition run_finally (fin : option ast) (pending : dloc + fail) : prog dloc :=
+    match fin with
+    | None => match pending with inl d => Ret d | inr f => Fail f end
+    | Some b => d <- Ev b ;; match pending with inl _ => Ret d | inr f => Fail f end
+    end.
+
+  Definition try_parts (n : ast) : option ast * list ast :=
     let ch := a_children n in
-    let fin := match last ch null_ast with Node KFinally _ _ _ _ (b :: _) => Some b | _ => None end in
-    let clauses := filter (fun x => kind_eqb (a_kind x) KCatch) ch in
-    let run_finally (after : res nat) : M nat :=
-        match fin with
-        | None => fun s => (after, s)
-        | Some b => fun s => match ev b s with
-                             | (RVal d, s') => (match after with RVal _ => RVal d | x => x end, s')
-                             | x => x
-                             end
-        end in
-    with_scope (
-      fun s =>
-        match ev (child 0 n) s with
-        | (RThrow e, s1) =>
-            (match (ex <- box_exception e ;; handle_exception clauses ex) s1 with
-             | (RVal (Some d), s2) => run_finally (RVal d) s2
-             | (RVal None, s2) => run_finally (RThrow e) s2
-             | (RRet d, s2) => run_finally (RRet d) s2
-             | (RBreak, s2) => run_finally RBreak s2
-             | (RCont, s2) => run_finally RCont s2
-             | (RThrow e', s2) => run_finally (RThrow e') s2
-             | (RFuel, s2) => (RFuel, s2)
-             | (RUnsup w, s2) => (RUnsup w, s2)
-             end)
-        | (RFuel, s1) => (RFuel, s1)
-        | (RUnsup w, s1) => (RUnsup w, s1)
-        | (r, s1) => run_finally r s1
-        end).
+    (match last ch null_ast with Node KFinally _ _ _ _ (b :: _) => Some b | _ => None end,
+     filter (fun x => kind_eqb (a_kind x) KCatch) ch).
+
+  Definition eval_try (n : ast) : prog dloc :=
+    let '(fin, clauses) := try_parts n in
+    Scoped (
+      Handle (Ev (child 0 n))
+        (fun r => match r with
+                  | inr (FThrow e) =>
+                      Handle (ex <- box_exception e ;; handle_exception clauses ex)
+                        (fun h => match h with
+                                  | inl (Some d) => run_finally fin (inl d)
+                                  | inl None => run_finally fin (inr (FThrow e))    (* no clause accepted it: it continues unchanged *)
+                                  | inr (FUnsup w) => Fail (FUnsup w)
+                                  | inr f => run_finally fin (inr f)                (* a catch block threw / returned / broke *)
+                                  end)
+                  | inr (FUnsup w) => Fail (FUnsup w)
+                  | other => run_finally fin other
+                  end)).
 
   (* ------------------------------------------------------------ one node *)
-  Definition eval_constant (n : ast) : M nat :=
+  Definition eval_constant (n : ast) : prog dloc :=
     match a_const n with
     | Some (isc, CNum tn t v) => new_value (ONum tn t v) isc false
     | Some (isc, CBool b) => new_value (OBool b) isc false
@@ -811,7 +766,7 @@ Section EVAL.
     | _ => unsup "constant kind"
     end.
 
-  Definition eval_node (n : ast) : M nat :=
+  Definition node_prog (n : ast) : prog dloc :=
     with_trace n (
     match a_kind n with
     | KConstant => eval_constant n
@@ -839,35 +794,36 @@ Section EVAL.
     | KDot_Access => eval_dot_access n
     | KArray_Call => eval_array_call n
     | KSwitch => eval_switch n
-    | KCase => with_scope (ev (child 1 n)) ;;; void_var
-    | KDefault => with_scope (ev (child 0 n)) ;;; void_var
+    | KCase => Scoped (Ev (child 1 n)) ;;; void_var
+    | KDefault => Scoped (Ev (child 0 n)) ;;; void_var
     | KTry => eval_try n
     | KReturn => match a_children n with
-                 | x :: _ => d <- ev x ;; (fun s => (RRet d, s))
-                 | [] => d <- void_var ;; (fun s => (RRet d, s))
+                 | x :: _ => d <- Ev x ;; Fail (FRet d)
+                 | [] => d <- void_var ;; Fail (FRet d)
                  end
-    | KBreak => fun s => (RBreak, s)
-    | KContinue => fun s => (RCont, s)
+    | KBreak => Fail FBreak
+    | KContinue => Fail FCont
     | KNoop => void_var
     | KFile =>
-        fun s => match eval_seq (a_children n) s with
-                 | (RCont, s') => (RThrow (EEval "Unexpected `continue` statement outside of a loop" []), s')
-                 | (RBreak, s') => (RThrow (EEval "Unexpected `break` statement outside of a loop" []), s')
-                 | x => x
-                 end
+        on_fail (eval_seq (a_children n))
+          (fun f => match f with
+                    | FCont => eval_error "Unexpected `continue` statement outside of a loop"
+                    | FBreak => eval_error "Unexpected `break` statement outside of a loop"
+                    | _ => Fail f
+                    end)
     | k => unsup ("node " ++ name_of_kind k)
     end).
 End EVAL.
 
-Fixpoint eval (c : cfg) (ops : numops) (fuel : nat) (n : ast) : M nat :=
+Fixpoint eval (c : cfg) (ops : numops) (fuel : nat) (n : ast) : M dloc :=
   match fuel with
   | O => fun s => (RFuel, s)
-  | S f => eval_node c ops (eval c ops f) f n
+  | S f => run (eval c ops f) f (node_prog c ops n)
   end.
 
 (* ChaiScript_Basic::eval: a Return_Value reaching the top is the result *)
-Definition run_program (c : cfg) (ops : numops) (fuel : nat) (n : ast) (s : state) : res nat * state :=
+Definition run_program (c : cfg) (ops : numops) (fuel : nat) (n : ast) (s : state) : res dloc * state :=
   match eval c ops fuel n s with
-  | (RRet d, s') => (RVal d, s')
+  | (RFail (FRet d), s') => (RVal d, s')
   | x => x
   end.
